@@ -138,8 +138,8 @@ theorem md_normal (c : Cfg) (tgt : Tgt → Option Nat) (a b retAddr : Nat) (σ :
     ∃ n σ', stepsN c n σ = some σ' ∧
       Rel0 retAddr σ' { s with reg := s.reg.setIfInBounds dst (md_res k w (s.reg.getD dst 0) dv) } ∧
       topBytes σ' { s with reg := s.reg.setIfInBounds dst (md_res k w (s.reg.getD dst 0) dv) } = topBytes σ s ∧
-      σ'.log = σ.log ∧ σ'.misaligned = σ.misaligned ∧ σ'.rip = c.codeBase + b := by
-  obtain ⟨pre, base, size, hns, hsz, hfin⟩ := md_ns_of_rel0 retAddr σ s hrel
+      σ'.log = σ.log ∧ σ'.misaligned = σ.misaligned ∧ CallersKept σ σ' s ∧ σ'.rip = c.codeBase + b := by
+  obtain ⟨pre, base, size, top, hi, hns, hsz, hfin⟩ := md_ns_of_rel0 retAddr σ s hrel
   obtain ⟨hD4, hD10, _, hD1⟩ := regOf_ne_special dst hdst
   obtain ⟨σ', hsteps, hns', hD, hoth⟩ := md_block_steps c (regOf dst) k w X dv hns hsz (regOf_lt dst hdst) hD1 hD4 hX hnz
   obtain ⟨m, hm, hrun⟩ := md_run c tgt _ [] a b σ σ' (by simpa using hc) hrip hsteps
@@ -147,8 +147,8 @@ theorem md_normal (c : Cfg) (tgt : Tgt → Option Nat) (a b retAddr : Nat) (σ :
   subst hmb
   refine ⟨_, _, hrun, ?_⟩
   have := hfin { σ' with rip := c.codeBase + m } { s with reg := s.reg.setIfInBounds dst (md_res k w (s.reg.getD dst 0) dv) }
-    (md_ns_congr hns' rfl rfl) rfl hrel.frames ?_ ?_
-  · exact ⟨this.1, this.2, (md_steps_log hsteps).1, (md_steps_log hsteps).2, rfl⟩
+    (md_ns_congr hns' rfl rfl) rfl rfl ?_ ?_
+  · exact ⟨this.1, this.2.1, (md_steps_log hsteps).1, (md_steps_log hsteps).2, this.2.2, rfl⟩
   · intro j hj
     show σ'.get (regOf j) = _
     rw [md_vec_getD_set]
